@@ -1045,6 +1045,34 @@ theorem C13_rejects_range_length (T : Tables) (fs : FileSys) (c : Cfg) (loc : St
     (hver : (c.get T T.versionVar).truthy = false) : finish T fs c = .error .exit :=
   post_fails T fs c loc "len2" (.nums l) hpost henv (by simp [postCheck, hl]) hver
 
+/-- a local with a "one of these names" validation (`X is not None and X not in ["a", "b", …]`, table entry
+`oneof:a|b|…` — the PROPOSED repair for `-b`, harness/proposed/c13_driver_validation.diff; /repo c94a168 has no such
+statement, so its generated `post` table has no such entry and `-b bogus` is accepted, see MERGE_NOTES) holding a
+string that is not one of the names: error (unless `--version` returned before) -/
+theorem C13_rejects_unknown_bin (T : Tables) (fs : FileSys) (c : Cfg) (loc check names s : String)
+    (hpost : (loc, check) ∈ T.post) (hcheck : check.splitOn ":" = ["oneof", names])
+    (henv : c.env loc = some (.str s)) (hs : s ∉ names.splitOn "|")
+    (hver : (c.get T T.versionVar).truthy = false) : finish T fs c = .error .exit := by
+  have hbad : postCheck (.str s) check = false := by
+    unfold postCheck
+    split
+    · simp_all
+    · simp_all
+    · rename_i c' s' hc hv
+      cases hv
+      simp [hcheck, hs]
+    · rename_i h3
+      first
+        | exact (h3 _ _ rfl rfl).elim
+        | exact absurd rfl (h3 _ s rfl)
+        | (exfalso; apply h3 <;> rfl)
+        | simp_all
+  exact post_fails T fs c loc check (.str s) hpost henv hbad hver
+
+/- (no kernel-checked non-vacuity example: `String.splitOn` does not reduce in the kernel, see DEV.md; that the entry
+`oneof:below|below=|=within|within|within=|=within=|above|above=` splits as required and rejects `bogus` but not
+`within=` is exercised by the compiled driver on the repaired tree, stream cli.bad kind unknown-bin.) -/
+
 /-- `-T n` with `n ≤ 0`: error -/
 theorem C13_rejects_nonpositive_T (T : Tables) (fs : FileSys) (c : Cfg) (loc : String) (i : Int)
     (hpost : (loc, "positive") ∈ T.post) (henv : c.env loc = some (.int i)) (hi : i ≤ 0)
